@@ -34,6 +34,14 @@ def make_replay(prop, ob, ctx):
                 rp['input'] = found
         except Exception as ex:  # pragma: no cover
             rp['search_error'] = str(ex)
+    if (rp['input'] is None or rp['input'].get('kind') == 'raw') and ob['engine'] == 'kani' and str(ob.get('unit', '')).startswith('langid_serde'):
+        # no decoder for the serde harness family (mock serializers): look for a concrete string through serde_json instead
+        try:
+            found = search_kind('serde', 0)
+            if found:
+                rp['input'] = found
+        except Exception as ex:  # pragma: no cover
+            rp['search_error'] = str(ex)
     if ob.get('standin_input'):
         rp['input'] = ob['standin_input']
     elif ob['engine'] == 'verus':
